@@ -1,7 +1,8 @@
 /-
   PrtpyProofs.CKKValid — validity (C01) of complete Karmarkar–Karp (`ckk`) and of its generator (`ckkGen`),
-  strict improvement of the generator in improve-only mode (C11), and the unconditional validity of
-  `snp` and of `rnp` (numbins ≤ 5) that follow.
+  strict improvement of the generator in improve-only mode (C11), and the validity of `rnp` (numbins ≤ 5)
+  relative to that of the 2-way search it calls (`rnp_isPartition_of`; the unconditional `snp_isPartition'`,
+  `rnp_isPartition` and `ckkValid` are in PrtpyProofs/CKKFSwitch.lean since fix F11).
 -/
 import Prtpy
 import PrtpyProofs.Part
@@ -393,8 +394,8 @@ theorem ckk_isPartition {v nm : α → Nat} [BEq α] {k : Nat} {items : List α}
       cases h
       exact sortAsc_isPartition (hinv.bestP b0 hb0).1
 
-theorem ckkValid (v nm : α → Nat) [BEq α] : SNPProofs.CkkValid v nm :=
-  fun _ _ _ _ hk _ h => ckk_isPartition hk h
+/- `ckkValid : SNPProofs.CkkValid v nm` (validity of the 2-way search that snp/rnp call, which after fix F11 is
+   `ckkF`, not `ckk`) is in PrtpyProofs/CKKFSwitch.lean, downstream of PrtpyProofs/CKKF.lean. -/
 
 example : IsPartition id [4, 5, 6, 7, 8] 3 ⟨[8, 11, 11], [[8], [5, 6], [4, 7]]⟩ :=
   ckk_isPartition (nm := id) (fuel := 100) (by decide) rfl
@@ -514,16 +515,11 @@ theorem kkValid (v : α → Nat) : SNPProofs.KkValid v := by
 example : IsPartition id [4, 5, 6, 7, 8] 3 ⟨[8, 11, 11], [[8], [4, 7], [5, 6]]⟩ :=
   kkValid id 3 [4, 5, 6, 7, 8] _ (by decide) (by decide) rfl
 
-/-! ## Unconditional corollaries: SNP and RNP -/
+/-! ## Corollaries: SNP and RNP, relative to the validity of the 2-way search they call (`SNPProofs.CkkValid`)
 
-/-- C01 for `snp`, without hypotheses on KK / CKK -/
-theorem snp_isPartition' {v nm : α → Nat} [BEq α] [LawfulBEq α] {k : Nat} {items : List α} {fuel : Nat}
-    {b : Bins α} (hk : 0 < k) (hne : items ≠ []) (h : snp v nm k true items fuel = .ok b) :
-    IsPartition v items k b :=
-  SNPProofs.snp_isPartition (kkValid v) (ckkValid v nm) hk hne h
-
-example : IsPartition id [4, 5, 6, 7, 8] 3 ⟨[8, 11, 11], [[8], [4, 7], [5, 6]]⟩ :=
-  snp_isPartition' (nm := id) (fuel := 100) (by decide) (by decide) rfl
+  The unconditional statements `snp_isPartition'` and `rnp_isPartition` (same names, same namespace) are in
+  PrtpyProofs/CKKFSwitch.lean: since fix F11 the 2-way search is `ckkF`, whose validity is proved in
+  PrtpyProofs/CKKF.lean, which imports this file. -/
 
 /-- the odd case of `rec_generate_sets`: one sub-collection is split off into a new prior bin, the rest is
     partitioned recursively; the result is the incumbent or a valid partition that includes the prior bins -/
@@ -566,32 +562,32 @@ theorem rnpRec_odd {v nm : α → Nat} [BEq α] [LawfulBEq α] {fuel rf cur : Na
       · exact absurd hlt (Nat.not_lt.2 (SNPProofs.spread_le_append _ _))
     · cases hstep; exact hs
 
-theorem rnpRec_three {v nm : α → Nat} [BEq α] [LawfulBEq α] {fuel rf : Nat} {prior best r : Bins α}
-    {items : List α} (hpc : prior.Consistent v)
+theorem rnpRec_three {v nm : α → Nat} [BEq α] [LawfulBEq α] (hckk : SNPProofs.CkkValid v nm)
+    {fuel rf : Nat} {prior best r : Bins α} {items : List α} (hpc : prior.Consistent v)
     (h : rnpRec v nm true fuel rf 3 prior best items = .ok r) :
     IsPartition v (prior.lists.flatten ++ items) (prior.lists.length + 3) r ∨ r = best := by
   cases rf with
   | zero => simp only [rnpRec] at h; cases h
   | succ rf =>
     exact rnpRec_odd (cur := 3) rfl
-      (fun _ _ _ _ hr => Or.inl (SNPProofs.rnpRec_two (ckkValid v nm) hr)) hpc h
+      (fun _ _ _ _ hr => Or.inl (SNPProofs.rnpRec_two hckk hr)) hpc h
 
-theorem rnpRec_five {v nm : α → Nat} [BEq α] [LawfulBEq α] {fuel rf : Nat} {prior best r : Bins α}
-    {items : List α} (hpc : prior.Consistent v)
+theorem rnpRec_five {v nm : α → Nat} [BEq α] [LawfulBEq α] (hckk : SNPProofs.CkkValid v nm)
+    {fuel rf : Nat} {prior best r : Bins α} {items : List α} (hpc : prior.Consistent v)
     (h : rnpRec v nm true fuel rf 5 prior best items = .ok r) :
     IsPartition v (prior.lists.flatten ++ items) (prior.lists.length + 5) r ∨ r = best := by
   cases rf with
   | zero => simp only [rnpRec] at h; cases h
   | succ rf =>
     exact rnpRec_odd (cur := 5) rfl
-      (fun _ _ _ _ hr => SNPProofs.rnpRec_four (ckkValid v nm) (ckkGen_valid v nm) hr) hpc h
+      (fun _ _ _ _ hr => SNPProofs.rnpRec_four hckk (ckkGen_valid v nm) hr) hpc h
 
 theorem spread_singleton (x : Nat) : spread [x] = 0 := by
   simp [spread, maxL, minL]
 
-/-- C01 for `rnp` (numbins ≤ 5) -/
-theorem rnp_isPartition {v nm : α → Nat} [BEq α] [LawfulBEq α] {k : Nat} {items : List α} {fuel : Nat}
-    {b : Bins α} (hk : 0 < k) (hk5 : k ≤ 5) (hne : items ≠ [])
+/-- C01 for `rnp` (numbins ≤ 5), relative to the validity of the 2-way search -/
+theorem rnp_isPartition_of {v nm : α → Nat} [BEq α] [LawfulBEq α] (hckk : SNPProofs.CkkValid v nm)
+    {k : Nat} {items : List α} {fuel : Nat} {b : Bins α} (hk : 0 < k) (hk5 : k ≤ 5) (hne : items ≠ [])
     (h : rnp v nm k true items fuel = .ok b) : IsPartition v items k b := by
   unfold rnp at h
   cases hb : kk v k items with
@@ -612,22 +608,16 @@ theorem rnp_isPartition {v nm : α → Nat} [BEq α] [LawfulBEq α] {k : Nat} {i
         rw [hc]
         match hbl : best.lists, hl with
         | [l], _ => exact spread_singleton _
-      · exact SNPProofs.rnpRec_two (ckkValid v nm) h
-      · rcases rnpRec_three hnil h with hr | rfl
+      · exact SNPProofs.rnpRec_two hckk h
+      · rcases rnpRec_three hckk hnil h with hr | rfl
         · simpa using hr
         · exact hbest
-      · rcases SNPProofs.rnpRec_four (ckkValid v nm) (ckkGen_valid v nm) h with hr | rfl
+      · rcases SNPProofs.rnpRec_four hckk (ckkGen_valid v nm) h with hr | rfl
         · exact hr
         · exact hbest
-      · rcases rnpRec_five hnil h with hr | rfl
+      · rcases rnpRec_five hckk hnil h with hr | rfl
         · simpa using hr
         · exact hbest
-
-example : IsPartition id [4, 5, 6, 7, 8, 9, 3, 1] 5 ⟨[8, 8, 9, 9, 9], [[7, 1], [8], [4, 5], [9], [3, 6]]⟩ :=
-  rnp_isPartition (nm := id) (fuel := 1000) (by decide) (by decide) (by decide) rfl
-
-example : IsPartition id [4, 5, 6, 7, 8] 3 ⟨[8, 11, 11], [[8], [4, 7], [5, 6]]⟩ :=
-  rnp_isPartition (nm := id) (fuel := 100) (by decide) (by decide) (by decide) rfl
 
 /-! ## Stretch: the sums-only manager (`contents = false`) -/
 
@@ -899,8 +889,6 @@ end Prtpy.CKKValid
   'Prtpy.CKKValid.kkValid' depends on axioms: [propext, Classical.choice, Quot.sound]
 #print axioms Prtpy.CKKValid.ckk_isPartition
   'Prtpy.CKKValid.ckk_isPartition' depends on axioms: [propext, Classical.choice, Quot.sound]
-#print axioms Prtpy.CKKValid.ckkValid
-  'Prtpy.CKKValid.ckkValid' depends on axioms: [propext, Classical.choice, Quot.sound]
 #print axioms Prtpy.CKKValid.ckkGen_yields
   'Prtpy.CKKValid.ckkGen_yields' depends on axioms: [propext, Classical.choice, Quot.sound]
 #print axioms Prtpy.CKKValid.ckkGen_valid
@@ -909,14 +897,12 @@ end Prtpy.CKKValid
   'Prtpy.CKKValid.ckkGen_strict' depends on axioms: [propext, Classical.choice, Quot.sound]
 #print axioms Prtpy.CKKValid.ckkGen_strict'
   'Prtpy.CKKValid.ckkGen_strict'' depends on axioms: [propext, Classical.choice, Quot.sound]
-#print axioms Prtpy.CKKValid.snp_isPartition'
-  'Prtpy.CKKValid.snp_isPartition'' depends on axioms: [propext, Classical.choice, Quot.sound]
 #print axioms Prtpy.CKKValid.rnpRec_three
   'Prtpy.CKKValid.rnpRec_three' depends on axioms: [propext, Classical.choice, Quot.sound]
 #print axioms Prtpy.CKKValid.rnpRec_five
   'Prtpy.CKKValid.rnpRec_five' depends on axioms: [propext, Classical.choice, Quot.sound]
-#print axioms Prtpy.CKKValid.rnp_isPartition
-  'Prtpy.CKKValid.rnp_isPartition' depends on axioms: [propext, Classical.choice, Quot.sound]
+#print axioms Prtpy.CKKValid.rnp_isPartition_of
+  'Prtpy.CKKValid.rnp_isPartition_of' depends on axioms: [propext, Classical.choice, Quot.sound]
 #print axioms Prtpy.CKKValid.ckk_sums_valid
   'Prtpy.CKKValid.ckk_sums_valid' depends on axioms: [propext, Classical.choice, Quot.sound]
 #print axioms Prtpy.CKKValid.ckkGen_sums_valid
